@@ -151,6 +151,8 @@ class Model:
         self.suffix = suffix
         self.completed = {}
         self.nc = {}
+        self.md5_tainted = set()  # names whose md5 file is known to be shared (C13-K1)
+        self.md5_shared_new = set()
 
     def key(self, ident):
         """canonical record identifier"""
@@ -282,6 +284,7 @@ def relation(a, b):
 
 def compare(store, model, obs, who, opdesc, res, replay, idclass):
     """membership, content, md5, duplicates, validate"""
+    tainted = getattr(model, "md5_tainted", set())
     be = store.backend if store.backend != "sqlite-mem" else "sqlite"
     opkind, _, rel = opdesc.partition("|")
     ic = "" if idclass == "plain" else f":{idclass}"
@@ -311,7 +314,16 @@ def compare(store, model, obs, who, opdesc, res, replay, idclass):
                     f"but {str(want[k])[:60]!r} was written",
                     replay,
                 )
+            elif k in tainted:
+                res.probe("md5-unchecked:shared-md5-file")
             elif md5 != md5hex(want[k]):
+                if (be == "dir" and label == "completed" and k in model.nc and k in obs["nc"]
+                        and md5 == md5hex(model.nc[k])):
+                    # cause identified (known finding C13-K1): the completed and the
+                    # not-completed record of one name share md5/<name>.txt.  Reported
+                    # once; the history continues with this name's checksum unchecked
+                    # until a write() of it succeeds, everything else stays checked
+                    model.md5_shared_new.add(k)
                 res.add(
                     f"C13.md5/{tag}:{label}",
                     f"[{who}] after {opdesc}: md5 of {label} record {k!r} is {md5!r}, expected {md5hex(want[k])}",
@@ -321,6 +333,9 @@ def compare(store, model, obs, who, opdesc, res, replay, idclass):
         res.add(f"C13.duplicate-member/{tag}", f"[{who}] after {opdesc}: duplicate members {obs['dups']}", replay)
     v = obs["validate"]
     if len(res.violations) > n_before:
+        return
+    if tainted & (set(obs["completed"]) | set(obs["nc"])):
+        res.probe("validate-unchecked:shared-md5-file")
         return
     if not obs["dups"] and "error" not in v:
         n = len(obs["completed"]) + len(obs["nc"])
@@ -348,6 +363,7 @@ def run(plan, tier="quick") -> RunResult:
     replay = plan
     res.config = "with-restart" if any(o["op"] == "restart" for o in plan["ops"]) else "single-session"
     nontrivial = False
+    n_viol = 0
     try:
         import cogent3.app.sqlite_data_store  # noqa: F401  (module must exist before the shim)
 
@@ -363,6 +379,7 @@ def run(plan, tier="quick") -> RunResult:
                 ds = store.ds
                 mode = store.mode
                 before = model.copy()
+                model.md5_shared_new = set()
                 tree_before = simos.snapshot_tree(root) if backend == "dir" else None
                 rows_before = simsql.raw_rows(store.path) if backend == "sqlite" else None
                 ev0, mut0 = sim.ncalls, sql.mutating_by_conn_mode["rw"]
@@ -474,6 +491,7 @@ def run(plan, tier="quick") -> RunResult:
                             res.probe("overwrite-existing")
                         model.completed[key] = data_of(op["data"])
                         model.nc.pop(key, None)
+                        model.md5_tainted.discard(key)
                     state = "existing" if existed else "retires-nc" if key in before.nc else "new"
                     opdesc = f"write:{state}|{rel}"
                 elif name == "write_nc":
@@ -578,8 +596,18 @@ def run(plan, tier="quick") -> RunResult:
                             f"C13.other-record-changed/{be}" + ("" if idclass == "plain" else f":{idclass}") + f":{opdesc.replace('|', ':')}",
                             f"{name}({op['id']!r}) changed rows of other records: {changed}", replay,
                         )
-                if res.violations:
+                if len(res.violations) > n_viol:
+                    new = res.violations[n_viol:]
+                    if (new and model.md5_shared_new and all(
+                            v.cls.startswith("C13.md5/dir") and v.cls.endswith(":completed") for v in new)):
+                        # only the shared-md5-file corner: carry on past the known finding
+                        model.md5_tainted |= model.md5_shared_new
+                        model.md5_shared_new = set()
+                        n_viol = len(res.violations)
+                        res.probe("continued-past-shared-md5-file")
+                        continue
                     break
+                model.md5_tainted &= set(model.completed) | set(model.nc)
     finally:
         sql.close_all()
         simos.set_pid(None)
